@@ -27,6 +27,11 @@ fn main() {
         std::process::exit(2);
     }
     util::quiet_panics();
+    if args[1] == "macchild" {
+        // one macro case in this fresh process (the global default client can be set only once)
+        println!("{}", mac::child(&args[2]));
+        return;
+    }
     let f = std::fs::File::open(&args[2]).expect("case file");
     let out = std::io::stdout();
     let mut out = std::io::BufWriter::new(out.lock());
